@@ -79,6 +79,17 @@ CHECKS = {
         "Trusted: CPython datetime; int arithmetic; day<->date bijection (C01).",
         "DESIGN.md §2 C15",
     ),
+    "C17": (
+        "exploration",
+        "differential testing in both directions against the standard library's ISO-8601 reader/writer (dates enumerated, rest Hypothesis-generated)",
+        "Text of the built-in ISO patterns is read by datetime.fromisoformat and must give the same date/time/offset/"
+        "instant (microsecond precision); text written by stdlib isoformat() must parse with the corresponding pattern "
+        "to the same value; shape assertions (fixed widths, no trailing zeros / exactly 9 or 7 digits, terminal Z, "
+        "sign and 4-digit padding for years outside 1-9999) come from the pattern documentation. All 3652059 dates and "
+        "all whole-minute offsets are enumerated (all 129601 offsets in thorough).",
+        "Trusted: CPython 3.12 datetime ISO parsing/formatting.",
+        "DESIGN.md §2 C17",
+    ),
     "C18": (
         "exploration",
         "Hypothesis property-based testing against a Python set/range reference model + enumerated (la, lb, delta) grid",
